@@ -22,6 +22,26 @@ Theorem fixed_slice_spec : forall start_pos len line,
   rune_slice start_pos len line = concat (firstn len (skipn (start_pos - 1) (chunks line))).
 Proof. exact fixed_slice_spec. Qed.
 
+(* a declared length that reaches the end of the line - every value from the line's rune count up,
+   e.g. 2147483648 or 9223372036854775807 used as "the rest of the line" - gives the rest of the
+   line from start_pos, for every start_pos (empty only when start_pos is past the end); the result
+   does not depend on which such length is written *)
+Theorem fixed_slice_huge_length : forall start_pos len len' line,
+  rune_count line <= len -> rune_count line <= len' ->
+  rune_slice start_pos len line = skip_runes (start_pos - 1) line
+  /\ rune_slice start_pos len line = concat (skipn (start_pos - 1) (chunks line))
+  /\ rune_slice start_pos len line = rune_slice start_pos len' line.
+Proof.
+  exact (fun s l l' line H H' =>
+    conj (proj2 (fixed_slice_rest_proof s l line H))
+      (conj (proj1 (fixed_slice_rest_proof s l line H))
+            (eq_trans (proj1 (fixed_slice_rest_proof s l line H))
+                      (eq_sym (proj1 (fixed_slice_rest_proof s l' line H')))))).
+Qed.
+
+Theorem rune_count_at_most_bytes : forall line, rune_count line <= length line.
+Proof. exact rune_count_le. Qed.
+
 (* on valid UTF-8 (utf8.Valid) the slice is the re-encoding of the runes [start_pos, start_pos+length)
    of []rune(line) *)
 Theorem fixed_slice_valid : forall start_pos len line, utf8_valid line = true ->
@@ -39,9 +59,11 @@ Example fixed_slice_nonvacuous :
   rune_slice 2 3 (hx "61c3a9e697a5ff62") = hx "c3a9e697a5ff"        (* a é 日 \xff b : [2,5) *)
   /\ rune_slice 5 9 (hx "61c3a9e697a5ff62") = hx "62"                 (* reaches past the end *)
   /\ rune_slice 9 2 (hx "61c3a9e697a5ff62") = []                      (* entirely past the end *)
+  /\ rune_slice 3 65536 (hx "61c3a9e697a5ff62") = hx "e697a5ff62"     (* the rest of the line from rune 3 *)
+  /\ rune_count (hx "61c3a9e697a5ff62") = 5
   /\ utf8_valid (hx "61c3a9e697a5f09f988062") = true
   /\ rune_slice 2 3 (hx "61c3a9e697a5f09f988062") = encode_runes [233; 26085; 128512]%N.
-Proof. vm_compute. auto 6. Qed.
+Proof. vm_compute. auto 8. Qed.
 
 (* ---- csv: the RFC reader reads back every table the encoder writes ----------------------------- *)
 (* for all delimiters encoding/csv accepts (any valid rune except NUL, the double quote, CR, LF, U+FFFD), all
